@@ -59,6 +59,9 @@ type Case struct {
 	// more messages are outstanding than the producer's queues hold).
 	LogSuccesses bool `json:"log_successes,omitempty"`
 	SlowUs       int  `json:"slow_us,omitempty"`
+	// LateProducer: PublishIPFIXMessages is started before the sarama producer is installed (it only
+	// needs one when the first message arrives); the producer is installed before any message is sent.
+	LateProducer bool `json:"late_producer,omitempty"`
 }
 
 // proto field numbers of flow.proto (identical in FlowType1 and FlowType2 for these), keyed by
@@ -199,10 +202,16 @@ func runCase(c Case) *ev.Failure {
 			return err
 		})
 	}
-	kp.SetSaramaProducer(mp)
 	ch := make(chan *entities.Message)
 	done := make(chan struct{})
-	go func() { defer close(done); kp.PublishIPFIXMessages(ch) }()
+	if c.LateProducer {
+		go func() { defer close(done); kp.PublishIPFIXMessages(ch) }()
+		time.Sleep(200 * time.Microsecond)
+		kp.SetSaramaProducer(mp)
+	} else {
+		kp.SetSaramaProducer(mp)
+		go func() { defer close(done); kp.PublishIPFIXMessages(ch) }()
+	}
 	for mi, m := range c.Msgs {
 		set := entities.NewSet(true)
 		if m.Tpl {
@@ -428,6 +437,7 @@ func genRecord(t *rapid.T) []FieldVal {
 func genCase(t *rapid.T) Case {
 	c := Case{Schema: rapid.IntRange(1, 2).Draw(t, "schema"), Topic: rapid.SampledFrom([]string{"ipfix", "flows.v1", "t"}).Draw(t, "topic")}
 	c.LogSuccesses = rapid.IntRange(0, 2).Draw(t, "log_successes") == 0
+	c.LateProducer = rapid.IntRange(0, 4).Draw(t, "late_producer") == 0
 	if rapid.IntRange(0, 59).Draw(t, "slow") == 0 {
 		c.SlowUs = rapid.SampledFrom([]int{50, 200}).Draw(t, "slow_us")
 	}
@@ -530,7 +540,7 @@ func TestC19(t *testing.T) {
 				cl = append(cl, k)
 			}
 		}
-		for k, b := range map[string]bool{"producer_logs_successes": c.LogSuccesses, "slow_broker_side": c.SlowUs > 0, "message_with_300_or_more_records": recs >= 300} {
+		for k, b := range map[string]bool{"producer_logs_successes": c.LogSuccesses, "producer_installed_after_the_loop_started": c.LateProducer, "slow_broker_side": c.SlowUs > 0, "message_with_300_or_more_records": recs >= 300} {
 			if b {
 				cl = append(cl, k)
 			}
